@@ -6,7 +6,7 @@
    (valid edit scripts, hunks separated by an unchanged line, no hunks for equal texts, equal scripts for
    equal sides).  The result is [Ok (bytes written to out, resolution = Conflict?)]. *)
 From GixV.Base Require Import Bytes BytesFacts Outcome.
-From GixV.C45 Require Import Model Proofs.
+From GixV.C45 Require Import Model Proofs Proofs2.
 
 (* the main loop terminates for every input (also for scripts violating the contract) *)
 Theorem merge_never_hangs : forall base ours theirs lb c hc ho,
@@ -41,3 +41,74 @@ Z" in
   merge base base theirs (mkLabels None None None) (Keep ZealousDiff3 7) [] [(1, 2, 1, 2); (3, 4, 3, 5)]%nat
     = Ok (theirs, false).
 Proof. split; reflexivity. Qed.
+
+(* [merge] writes the concatenation of the pieces [merge_tokens] produced; the next theorems speak about pieces:
+   [PLine s c l] a line copied from side s (c: inside a group of intersecting hunks), [PMarker] a conflict
+   marker line, [PNl] a line ending inserted by assure_ends_with_nl *)
+Theorem merge_writes_the_pieces : forall base ours theirs lb c hc ho,
+  merge base ours theirs lb c hc ho =
+  omap (fun '(out, conf) => (out_bytes out, conf)) (merge_tokens (mk_env base ours theirs) lb c hc ho).
+Proof. reflexivity. Qed.
+
+(* a result reported as conflict-free contains no inserted conflict marker — for EVERY input and edit script
+   (no contract needed), every style, marker size and resolution *)
+Theorem clean_result_has_no_marker : forall e lb c hc ho out,
+  merge_tokens e lb c hc ho = Ok (out, false) -> Forall (fun p => is_marker p = false) out.
+Proof. exact L_clean_no_marker. Qed.
+
+(* stronger: in a clean result every piece is a line of the input it is attributed to; only the union resolution
+   may insert a line ending *)
+Theorem clean_result_only_input_lines : forall e lb c hc ho out,
+  merge_tokens e lb c hc ho = Ok (out, false) -> Forall (clean_piece e (is_union c)) out.
+Proof. exact L_clean_only_input_lines. Qed.
+
+(* ResolveWithOurs (take_ours = true) / ResolveWithTheirs (false): the result is always reported conflict-free,
+   consists of input lines only (no marker, no inserted line ending), and inside a group of intersecting hunks
+   (a conflict) no line of the rejected side is written: there the lines come from the base or the chosen side.
+   Lines of the rejected side appear only where that side alone changed the base.  For every input, no contract. *)
+Theorem resolution_takes_base_or_chosen_side : forall e lb take_ours hc ho out conf,
+  merge_tokens e lb (res_conflict take_ours) hc ho = Ok (out, conf) ->
+  conf = false /\ Forall (res_piece e take_ours) out.
+Proof. exact L_resolve. Qed.
+
+(* non-vacuity of the two theorems above: a conflict resolved with ours; the same conflict kept (not clean) *)
+Example resolve_example :
+  let e := mk_env (bs "a
+b
+c
+") (bs "a
+X
+c
+") (bs "a
+Y
+c
+Z
+") in
+  merge_tokens e (mkLabels None None None) (res_conflict true) [(1, 2, 1, 2)]%nat [(1, 2, 1, 2); (3, 3, 3, 4)]%nat
+    = Ok ([PLine Other false (bs "Z
+"); PLine Ancestor false (bs "c
+"); PLine Current true (bs "X
+"); PLine Ancestor false (bs "a
+")], false) /\
+  exists out, merge_tokens e (mkLabels None None None) (Keep Merge 7) [(1, 2, 1, 2)]%nat [(1, 2, 1, 2); (3, 3, 3, 4)]%nat
+    = Ok (out, true) /\ existsb is_marker out = true.
+Proof. split; [reflexivity | eexists; split; reflexivity]. Qed.
+
+(* ---- not proved, only tested by the correspondence run and prop() ------------------------------------------ *)
+(* merge never panics on inputs satisfying the diff contract (proved above only when one side equals the base) *)
+Definition never_panics_full_statement : Prop := forall base ours theirs lb c hc ho,
+  contract (mk_env base ours theirs) hc ho = true -> merge base ours theirs lb c hc ho <> Panic.
+(* both sides made the same change: the result is that change *)
+Definition same_change_full_statement : Prop := forall base ours lb c hc ho,
+  contract (mk_env base ours ours) hc ho = true -> merge base ours ours lb c hc ho = Ok (ours, false).
+
+(* known class resolve-glued-eof-line: read on BYTES, "the ours resolution contains only lines of the inputs" is
+   false: a piece that is an unterminated last line can be followed by another piece, and the two run together.
+   (The piece-level theorem above is what holds; bytes and pieces agree line by line whenever every piece but the
+   last ends in LF.) *)
+Theorem resolution_lines_refuted_on_bytes :
+  exists base ours theirs hc ho out,
+    contract (mk_env base ours theirs) hc ho = true /\
+    merge base ours theirs (mkLabels None None None) ResolveWithOurs hc ho = Ok (out, false) /\
+    exists l, In l (tokens out) /\ ~ In l (tokens base) /\ ~ In l (tokens ours) /\ ~ In l (tokens theirs).
+Proof. exact L_glued_witness. Qed.
